@@ -152,8 +152,8 @@ class HTTP(BaseComponent):
         res.prepare()
         self.fire(write(sock, b'%s%s' % (bytes(res), bytes(headers))))
 
-        if req.method == 'HEAD':
-            # no body, but the exchange ends here like any other
+        if req.method == 'HEAD' or res.status < 200 or res.status in (204, 304):
+            # no body (RFC 7230 3.3.3), but the exchange ends here like any other
             if res.close:
                 self.fire(close(sock))
             if sock in self._clients:
